@@ -44,12 +44,24 @@ func newC04RunIDs(rc *harness.RunCtx, adv *adversary, ids []sim.ID) *protoRun {
 	return pr
 }
 
+func disjointIDs(a, b []sim.ID) bool {
+	for _, x := range a {
+		if idSet(b)[x] {
+			return false
+		}
+	}
+	return true
+}
+
 func okEnd(e partyEnd) bool { return e.done && e.err == nil && e.panic == nil }
 
 // ---- scenario: agree on random ----
 
+// aorSampleLen: deliberately neither a multiple of a hash block nor of 8.
+const aorSampleLen = 45
+
 func scenarioAOR() *c04Scenario {
-	s := &c04Scenario{name: "aor", only: []string{"aor/"}}
+	s := &c04Scenario{name: "aor", only: []string{"aor/"}, jointUniform: true}
 	s.canon = map[string]func([]byte) ([]byte, error){
 		"aor/AgreeOnRandomRound1BroadcastBROADCAST:": canonOf[*aor.Round1Broadcast](),
 		"aor/AgreeOnRandomRound2BroadcastBROADCAST:": canonOf[*aor.Round2Broadcast](),
@@ -61,7 +73,7 @@ func scenarioAOR() *c04Scenario {
 			for _, id := range c04IDs {
 				id := id
 				pr.start(script{name: fmt.Sprintf("%s@%d", ns, id), party: id, fn: func(ctx context.Context, rt *network.Router) (any, error) {
-					r, err := aor.NewAgreeOnRandomRunner(id, quorumOf(c04IDs), 32, hagrid.NewTranscript("C04 agree on random "+ns), partyRand(rc, id, ns+"/proto"))
+					r, err := aor.NewAgreeOnRandomRunner(id, quorumOf(c04IDs), aorSampleLen, hagrid.NewTranscript("C04 agree on random "+ns), partyRand(rc, id, ns+"/proto"))
 					if err != nil {
 						return nil, err
 					}
@@ -87,8 +99,8 @@ func scenarioAOR() *c04Scenario {
 			if id == adv.corrupt {
 				continue
 			}
-			if len(b) != 32 {
-				res.safety = &harness.Violation{Class: "bad-output", Site: "aor", Detail: fmt.Sprintf("honest party %d returned a sample of %d bytes, 32 were requested", id, len(b))}
+			if len(b) != aorSampleLen {
+				res.safety = &harness.Violation{Class: "bad-output", Site: "aor", Detail: fmt.Sprintf("honest party %d returned a sample of %d bytes, %d were requested", id, len(b), aorSampleLen)}
 			}
 			if first == "" {
 				first = res.digest[id]
@@ -104,16 +116,22 @@ func scenarioAOR() *c04Scenario {
 
 // ---- scenario: redistribution (refresh / recovery / change of holders are this protocol) ----
 
-var (
-	redistPrev   = []sim.ID{7, 12, 300}
-	redistNext   = []sim.ID{12, 45, 300}
-	redistQuorum = []sim.ID{7, 12, 45, 300}
-)
+var redistPrev = []sim.ID{7, 12, 300}
 
 const redistAnchor = sim.ID(12)
 
-func scenarioRedistribute(name string, anchored bool) *c04Scenario {
-	s := &c04Scenario{name: name, only: []string{"redist/"}, maxLeaves: 40, c07Pos: []string{"0", "1", "3"}}
+// scenarioRedistribute: the previous holders (2-of-3 over 7, 12, 300) all drive;
+// redistNext are the holders of the next 2-of-3 structure. With next = {12, 45, 300}
+// one holder leaves and one newcomer joins; with next = {45, 46, 47} every next holder
+// is new, so nobody on the receiving side has a previous shard to compare with.
+func scenarioRedistribute(name string, anchored bool, redistNext []sim.ID) *c04Scenario {
+	redistQuorum := unionIDs(redistPrev, redistNext)
+	s := &c04Scenario{name: name, only: []string{"redist/"}, maxLeaves: 40}
+	for i, id := range redistQuorum {
+		if idSet(redistPrev)[id] {
+			s.c07Pos = append(s.c07Pos, fmt.Sprint(i)) // a next-only holder samples nothing
+		}
+	}
 	s.canon = map[string]func([]byte) ([]byte, error){
 		"redist/RedistributeRound1BROADCAST:": canonOf[*redistribute.Round1Broadcast[*k256Point, *k256Scalar]](),
 		"redist/RedistributeRound1UNICAST:":   canonOf[*redistribute.Round1P2P[*k256Point, *k256Scalar]](),
@@ -213,7 +231,26 @@ func scenarioRedistribute(name string, anchored bool) *c04Scenario {
 		return res
 	}
 	s.classify = func(label string) (string, string) {
-		if strings.Contains(label, "|c="+posLabel(45, redistQuorum)+"|") {
+		nextOnly := false
+		for _, id := range redistQuorum {
+			if !idSet(redistPrev)[id] && strings.Contains(label, "|c="+posLabel(id, redistQuorum)+"|") {
+				nextOnly = true
+			}
+		}
+		if !anchored && disjointIDs(redistPrev, redistNext) && strings.Contains(label, "RedistributeRound2BROADCAST:") {
+			// Every next holder is new and none has a trusted anchor: nobody on the receiving
+			// side has a reference for the metadata of the old sharing (documented in the
+			// package README, "Identifiable Abort"). What such a holder can and does check is
+			// the aggregate: the contributions must add up to the old public key every
+			// previous holder claims, i.e. entry 0 of PrevVerificationVector. The old MSP,
+			// the higher entries of the old verification vector and the zero-sharing vector
+			// are not used by it.
+			if strings.Contains(label, ".PrevMSP.") || strings.Contains(label, ".ZeroVerificationVector.") ||
+				(strings.Contains(label, ".PrevVerificationVector.") && strings.HasSuffix(label, "#1")) {
+				return "free", "old-sharing metadata that a next-only holder without a trusted anchor cannot check (documented); only the claimed old public key is bound"
+			}
+		}
+		if nextOnly {
 			return "free", "a next-only holder contributes nothing in rounds 1 and 2; the protocol ignores its (empty) messages by design"
 		}
 		return "bound", ""
@@ -333,7 +370,10 @@ func scenarioLindell17Sign(name string, primary, secondary sim.ID) *c04Scenario 
 // ---- scenario: Lindell17 DKG (Paillier keys, LP / LPDL / range proofs) ----
 
 func scenarioLindell17DKG(name string, ids []sim.ID) *c04Scenario {
-	s := &c04Scenario{name: name, only: []string{"dkg/"}, maxLeaves: 14, heavy: true, costlyRun: true}
+	s := &c04Scenario{name: name, only: []string{"dkg/"}, maxLeaves: 0, heavy: true, costlyRun: true}
+	if len(ids) > 2 {
+		s.maxLeaves = 14 // three parties: three times the positions and twice the recipients
+	}
 	s.canon = map[string]func([]byte) ([]byte, error){
 		"dkg/BRON_CRYPTO_LINDELL17_DKG_R1BROADCAST:": canonOf[*l17dkg.Round1Broadcast[*k256Point, *k256Base, *k256Scalar]](),
 		"dkg/BRON_CRYPTO_LINDELL17_DKG_R2BROADCAST:": canonOf[*l17dkg.Round2Broadcast[*k256Point, *k256Base, *k256Scalar]](),
@@ -415,7 +455,22 @@ func scenarioLindell17DKG(name string, ids []sim.ID) *c04Scenario {
 		}
 		return res
 	}
-	s.classify = func(string) (string, string) { return "bound", "" }
+	s.classify = func(label string) (string, string) {
+		// LPDL round 3 carries the verifier's challenge pair (a, b) as num.Uint values,
+		// whose encoding repeats the modulus they live under. The prover uses only the
+		// integer values (Lift) and their value bytes (commitment opening): the modulus
+		// tag is redundant metadata, nothing the proof binds.
+		if strings.Contains(label, "DKG_R6UNICAST:") && (strings.Contains(label, "Round3Output.A.modulus.") || strings.Contains(label, "Round3Output.B.modulus.")) {
+			return "free", "modulus tag inside the encoding of the LPDL challenge pair (a, b): the prover uses only the integer values, which the commitment binds"
+		}
+		// Range proof (cut and choose): for a challenge bit 1 the prover opens only the one
+		// commitment of the pair (C1[i], C2[i]) it points at; the other one is never looked at.
+		// Whether an altered commitment is noticed therefore depends on the verifier's coins.
+		if strings.Contains(label, "RangeProverOutput.C1[") || strings.Contains(label, "RangeProverOutput.C2[") {
+			return "free", "cut-and-choose commitment of the Paillier range proof: checked only if the verifier's challenge bit selects it (statistical soundness by design)"
+		}
+		return "bound", ""
+	}
 	return s
 }
 
@@ -456,8 +511,13 @@ func l17CrossCheck(shards map[sim.ID]*l17Shard, site string) *harness.Violation 
 
 func init() {
 	c04Scenarios["aor"] = scenarioAOR
-	c04Scenarios["redistribute"] = func() *c04Scenario { return scenarioRedistribute("redistribute", false) }
-	c04Scenarios["redistribute-anchored"] = func() *c04Scenario { return scenarioRedistribute("redistribute-anchored", true) }
+	c04Scenarios["redistribute"] = func() *c04Scenario { return scenarioRedistribute("redistribute", false, []sim.ID{12, 45, 300}) }
+	c04Scenarios["redistribute-anchored"] = func() *c04Scenario {
+		return scenarioRedistribute("redistribute-anchored", true, []sim.ID{12, 45, 300})
+	}
+	c04Scenarios["redistribute-disjoint"] = func() *c04Scenario {
+		return scenarioRedistribute("redistribute-disjoint", false, []sim.ID{45, 46, 47})
+	}
 	c04Scenarios["lindell17-sign"] = func() *c04Scenario { return scenarioLindell17Sign("lindell17-sign", 7, 300) }
 	c04Scenarios["lindell17-sign-swapped"] = func() *c04Scenario { return scenarioLindell17Sign("lindell17-sign-swapped", 300, 7) }
 	c04Scenarios["lindell17-dkg"] = func() *c04Scenario { return scenarioLindell17DKG("lindell17-dkg", []sim.ID{7, 300}) }
